@@ -341,6 +341,9 @@ func (g *GoBackNConn) Close() error {
 		if g.pingTicker != nil {
 			g.pingTicker.Stop()
 		}
+		if g.pongTicker != nil {
+			g.pongTicker.Stop()
+		}
 		if g.resendTicker != nil {
 			g.resendTicker.Stop()
 		}
